@@ -101,7 +101,7 @@ PROPS = {
     ),
     "C11": dict(
         profiles=[("graphs", dict(quick=200, thorough=6000), {}), ("storage", dict(quick=40, thorough=600), {}),
-                  ("graphs", dict(quick=80, thorough=2500), dict(panic_p=0.2, take_p=0.35))],
+                  ("graphs", dict(quick=80, thorough=2500), dict(panic_p=0.2, take_p=0.35, stray_p=0.15))],
         channels=["evdrops", "cdrops"],
         rule="events are destroyed on at least two different paths (completion, consumed, dead target)",
         nontrivial=both(has(r"^ed \d"), either(has(r"^t  took"), has(r"^t h .*@(null|\?)"))),
@@ -113,7 +113,8 @@ PROPS = {
         nontrivial=lambda ops, impl: sum(1 for _, obs in impl for l in obs if l.startswith("cd K")) >= 2,
     ),
     "C13": dict(
-        profiles=[("graphs", dict(quick=200, thorough=6000), dict(panic_p=0.25))],
+        profiles=[("graphs", dict(quick=200, thorough=6000), dict(panic_p=0.25)),
+                  ("graphs", dict(quick=120, thorough=4000), dict(panic_p=0.1, stray_p=0.2, take_p=0.3))],
         channels=["evdrops", "cdrops", "ret"],
         rule="a handler panics while other events are still queued",
         nontrivial=has(r"^panic user"),
